@@ -22,7 +22,7 @@ ASSUMPTIONS = ["exact rational arithmetic (fractions) for all predicates", "quer
 FLOORS = {'quick': {'ray-status': 1500, 'ray-params': 500, 'is_left': 1500, 'wn_poly': 5000, 'hull': 300, 'voxel-fill': 1500,
                     'voxel-cover': 500, 'find_ctrlpts': 300},
           'thorough': {'ray-status': 15000, 'wn_poly': 50000, 'hull': 3000, 'voxel-fill': 15000}}
-MANDATORY_TAGS = ['vox:container-sizes-differ', 'vox:other-unit-of-length', 'ray:shared-far-end', 'vox:lattice', 'vox:padding=0.0', 'ray:cross2d', 'ray:cross3d', 'ray:parallel', 'ray:coincident', 'ray:skew', 'vox:planar-axis-aligned', 'vox:padding', 'ray:near-parallel', 'is_left:near-collinear', 'hull:float-near-collinear', 'ray:generic-cross2d', 'ray:generic-cross3d', 'ray:coords<=1000', 'ray:scale=2^-24', 'ray:scale=2^20', 'poly:star', 'poly:orthogonal',
+MANDATORY_TAGS = ['ray:near-parallel-generic', 'vox:container-sizes-differ', 'vox:other-unit-of-length', 'ray:shared-far-end', 'vox:lattice', 'vox:padding=0.0', 'ray:cross2d', 'ray:cross3d', 'ray:parallel', 'ray:coincident', 'ray:skew', 'vox:planar-axis-aligned', 'vox:padding', 'ray:near-parallel', 'is_left:near-collinear', 'hull:float-near-collinear', 'ray:generic-cross2d', 'ray:generic-cross3d', 'ray:coords<=1000', 'ray:scale=2^-24', 'ray:scale=2^20', 'poly:star', 'poly:orthogonal',
                   'poly:cw', 'poly:ccw', 'hull:collinear', 'vox:surface', 'vox:volume', 'vox:cubes', 'find:unnormalized']
 TECHNIQUE = ("runtime monitoring: exact-arithmetic oracles (orientation, crossing parity, definitional hull test, exact line "
              "intersection, point-in-box) on every predicate / query call of a constructed-class workload")
@@ -223,7 +223,8 @@ def check_rays_generic(case, ctx):
         dim = rng.choice([2, 3])
         M = rng.choice([10, 100, 1000])
         sc = 2.0 ** rng.choice([0, 0, 0, -24, -10, 10, 20])
-        cls = rng.choice(['cross-int', 'cross-int', 'generic', 'skew', 'coincident', 'near-parallel', 'near-parallel', 'shared-far-end'])
+        cls = rng.choice(['cross-int', 'cross-int', 'generic', 'skew', 'coincident', 'near-parallel', 'near-parallel', 'shared-far-end',
+                          'near-parallel-generic'])
 
         def P(m=M):
             return [rng.randint(-m, m) for _ in range(dim)]
@@ -248,6 +249,17 @@ def check_rays_generic(case, ctx):
             if any(F(u_) + F(v_) != F(u_ + v_) for u_, v_ in zip(a, d1)) or any(F(u_) + F(v_) != F(u_ + v_) for u_, v_ in zip(c, d2)) or \
                     any(F(x) - F(k2) * F(e) != F(cc) for x, e, cc in zip(X, d2, c)) or any(F(x) - F(k1) * F(e) != F(aa) for x, e, aa in zip(X, d1, a)):
                 continue          # (keep only data where every end point is exactly what the construction says)
+        elif cls == 'near-parallel-generic':
+            # (fifth hunt) two lines through the origin - Ray(d1, 2 d1) and Ray(-d2, -2 d2), exact whatever the floats - whose directions
+            # are ordinary floats 1e-3 .. 1e-5 rad apart (the dyadic class above is computed without any rounding): they cross
+            M = 1
+            d1 = [round(rng.uniform(-1, 1), 3) for _ in range(dim)]
+            rel_ = 10.0 ** -rng.uniform(3, 5)
+            d2 = [x * (1.0 + rel_ * rng.uniform(-1, 1)) for x in d1]
+            if not any(cross3([F(x) for x in d1] + [F(0)] * (3 - dim), [F(x) for x in d2] + [F(0)] * (3 - dim))):
+                continue
+            a, b = list(d1), [2.0 * x for x in d1]
+            c, d = [-x for x in d2], [-2.0 * x for x in d2]
         elif cls == 'shared-far-end':
             # two rays from ordinary decimal points near the origin to ONE far point (both are given by their end points, so they cross
             # there exactly, at t1 = t2 = 1, whatever the rounding of the directions)
@@ -325,6 +337,8 @@ def check_rays_generic(case, ctx):
             ctx.tag('ray:near-parallel')
         if cls == 'shared-far-end':
             ctx.tag('ray:shared-far-end')
+        if cls == 'near-parallel-generic':
+            ctx.tag('ray:near-parallel-generic')
         if not ctx.check(st == exp, 'ray/status', '%s: status %r, exact arithmetic says %r' % (desc, st, exp), what='ray-status'):
             continue
         if exp == RI.INTERSECT:
